@@ -21,6 +21,7 @@
 #include <tins/sniffer.h>
 #include <pcap.h>
 #include <cxxabi.h>
+#include <deque>
 #include <sys/stat.h>
 
 using namespace Tins;
@@ -978,6 +979,342 @@ static void loop_dlt_observation() {
     R.info["observation_PacketWriter_DataLinkType_Loopback_then_FileSniffer"] = jstr(res);
 }
 
+// ================================================================================================ object histories
+// Round 4: state a sniffer / writer OBJECT accumulates while it is used, and what move construction / move assignment carry.
+// Explicit-state BFS over the reference-model states of 2 slots; every transition is executed by replaying its whole history
+// on fresh real objects (they are not copyable), judged on every next()/drain, and followed by a PROBE that drains every live
+// slot and compares with the model, so that hidden state (something cached in the object that a move forgets) shows even when
+// the model state was reached before by a shorter history.
+// Model of a sniffer slot: (capture k, cursor, end-of-file seen, filter, extract_raw); a move transfers exactly that; the source
+// of a move is only destroyed or assigned to afterwards (a moved-from object is valid but unspecified).
+struct HCap { const Link* link; std::vector<Frame> alpha; Oracle orc; std::vector<int> fr; std::vector<Ts> ts; std::shared_ptr<MemFile> file; };
+struct HCfg { std::vector<HCap> caps; bool op_filter, op_raw; std::string desc; };
+static const int H_FILTER = 1;                     // "tcp port 80": accepted by libpcap for all seven link types, discriminates in every capture
+struct MSlot { int st, k, cur, eof, flt, raw; };   // st 0 empty, 1 moved-from, 2 live
+struct HOp { char t; int s, x; };
+static std::string hop_str(const HOp& o) { return std::string(1, o.t) + str(o.s) + (o.x >= 0 ? str(o.x) : ""); }
+static std::string hops_str(const std::vector<HOp>& h) { std::string s; for (size_t i = 0; i < h.size(); ++i) s += (i ? "," : "") + hop_str(h[i]); return s.empty() ? "-" : s; }
+static std::string mkey(const MSlot* m) {
+    std::string s;
+    for (int i = 0; i < 2; ++i) s += m[i].st != 2 ? (m[i].st ? "M|" : "E|") : str(m[i].k) + "." + str(m[i].cur) + "." + str(m[i].eof) + "." + str(m[i].flt) + "." + str(m[i].raw) + "|";
+    return s;
+}
+static std::vector<HOp> hops_enabled(const HCfg& c, const MSlot* m) {
+    std::vector<HOp> v;
+    const int nk = (int)c.caps.size();
+    for (int s = 0; s < 2; ++s) {
+        const int t = 1 - s;
+        if (m[s].st == 0) { for (int k = 0; k < nk; ++k) v.push_back(HOp{'o', s, k}); if (m[t].st == 2) v.push_back(HOp{'m', s, t}); }
+        else {
+            v.push_back(HOp{'c', s, -1});
+            for (int k = 0; k < nk; ++k) v.push_back(HOp{'A', s, k});
+            if (m[t].st == 2) v.push_back(HOp{'a', s, t});
+        }
+        if (m[s].st == 2) {
+            v.push_back(HOp{'n', s, -1}); v.push_back(HOp{'d', s, -1});
+            if (c.op_filter) { v.push_back(HOp{'f', s, 1}); v.push_back(HOp{'f', s, 0}); }
+            if (c.op_raw && !m[s].raw) v.push_back(HOp{'r', s, -1});
+        }
+    }
+    return v;
+}
+// the model's answer to next(): the next frame of the capture that the filter in force accepts and that parses (or any frame in raw mode)
+static bool model_next(const HCfg& c, MSlot& m, Exp& e) {
+    const HCap& cap = c.caps[m.k];
+    while (m.cur < (int)cap.fr.size()) {
+        const Frame& f = cap.alpha[cap.fr[m.cur]];
+        const Ts ts = cap.ts[m.cur];
+        ++m.cur;
+        if ((m.flt == 0 || cap.orc.match_file(H_FILTER, f.b, f.len)) && (m.raw || f.p.ok)) { e = Exp{ts, &f}; return true; }
+    }
+    m.eof = 1;
+    return false;
+}
+static uint64_t g_hist_next = 0;
+// Replays a history on fresh objects.  judges every observation; probes every live slot at the end.
+static void sniffer_history(const HCfg& c, const std::vector<HOp>& h, MSlot* m_out) {
+    std::unique_ptr<FileSniffer> sl[2];
+    MSlot m[2] = {{0, 0, 0, 0, 0, 0}, {0, 0, 0, 0, 0, 0}};
+    std::string where;
+    Mon::reset();
+    try {
+        for (size_t i = 0; i <= h.size(); ++i) {
+            if (i == h.size()) {       // probe
+                for (int s = 0; s < 2; ++s) {
+                    if (m[s].st != 2) continue;
+                    const int reader = (h.size() + s) % 3 == 0 ? R_NEXT : (h.size() + s) % 3 == 1 ? R_ITER_PRE : R_LOOP_PKTREF;
+                    where = "probe: slot " + str(s) + " drained with " + READER_NAME[reader] + " after the history; model: capture " + c.caps[m[s].k].link->name + " at frame " + str(m[s].cur);
+                    std::vector<Exp> exp; Exp e; MSlot mm = m[s];
+                    while (model_next(c, mm, e)) exp.push_back(e);
+                    std::vector<Out> out;
+                    std::string problem = run_reader(*sl[s], reader, 0, out);
+                    if (!problem.empty()) { size_t b = problem.find('|'); viol("history:" + problem.substr(0, b), problem.substr(b + 1), where); }
+                    judge("history", exp, out, where, m[s].raw != 0);
+                    R.count("evaluations"); ++g_eval;
+                }
+                break;
+            }
+            const HOp& o = h[i];
+            where = "op " + str(i) + " (" + hop_str(o) + ")";
+            switch (o.t) {
+                case 'o': sl[o.s].reset(new FileSniffer(c.caps[o.x].file->path)); m[o.s] = MSlot{2, o.x, 0, 0, 0, 0}; break;
+                case 'c': sl[o.s].reset(); m[o.s] = MSlot{0, 0, 0, 0, 0, 0}; break;
+                case 'A': *sl[o.s] = FileSniffer(c.caps[o.x].file->path); m[o.s] = MSlot{2, o.x, 0, 0, 0, 0}; break;
+                case 'a': *sl[o.s] = std::move(*sl[o.x]); m[o.s] = m[o.x]; m[o.x].st = 1; break;
+                case 'm': sl[o.s].reset(new FileSniffer(std::move(*sl[o.x]))); m[o.s] = m[o.x]; m[o.x].st = 1; break;
+                case 'f':
+                    if (!sl[o.s]->set_filter(o.x ? FILTERS[H_FILTER] : "")) viol("history:valid-expression-refused", "set_filter returned false", where);
+                    m[o.s].flt = o.x; break;
+                case 'r': sl[o.s]->set_extract_raw_pdus(true); m[o.s].raw = 1; break;
+                case 'n': {
+                    std::vector<Exp> exp; Exp e; if (model_next(c, m[o.s], e)) exp.push_back(e);
+                    std::vector<Out> out;
+                    Packet p(sl[o.s]->next_packet());
+                    if (p) out.push_back(out_of(*p.pdu(), &p.timestamp()));
+                    judge("history", exp, out, where + ": next_packet on slot " + str(o.s) + ", model: capture " + c.caps[m[o.s].k].link->name, m[o.s].raw != 0);
+                    ++g_hist_next;
+                    break; }
+                case 'd': {
+                    std::vector<Exp> exp; Exp e; while (model_next(c, m[o.s], e)) exp.push_back(e);
+                    Collector col; sl[o.s]->sniff_loop(FPktRef{&col});
+                    judge("history", exp, col.out, where + ": sniff_loop to the end on slot " + str(o.s) + ", model: capture " + c.caps[m[o.s].k].link->name, m[o.s].raw != 0);
+                    break; }
+            }
+            for (int s = 0; s < 2; ++s)
+                if (m[s].st == 2 && sl[s]->link_type() != c.caps[m[s].k].link->dlt)
+                    viol("history:link_type", "slot " + str(s) + " reports link type " + str(sl[s]->link_type()) + ", its capture is " + c.caps[m[s].k].link->name, where);
+        }
+        sl[0].reset(); sl[1].reset();
+    } catch (std::exception& e) { viol("history:exception-escaped:" + exc_name(e), std::string("what(): ") + e.what(), where); }
+    catch (...) { viol("history:exception-escaped:unknown", "", where); }
+    if (mon_error()) viol(Mon::first, Mon::first_detail + " during a sniffer history", where);
+    if (m_out) { m_out[0] = m[0]; m_out[1] = m[1]; }
+}
+
+static const Link* link_by_name(const std::string& n) { for (int i = 0; i < NLINKS; ++i) if (n == LINKS[i].name) return &LINKS[i]; return 0; }
+static bool make_hcfg(HCfg& c, const std::string& caps, int nframes, bool op_filter, bool op_raw) {
+    std::istringstream in(caps);
+    std::string t;
+    int k = 0;
+    while (std::getline(in, t, ',')) {
+        const Link* l = link_by_name(t);
+        if (!l) return false;
+        c.caps.push_back(HCap());
+        HCap& cap = c.caps.back();
+        cap.link = l; cap.alpha = alphabet(l->dlt);
+        MemFile empty; empty.set(file_image(l->file_linktype, std::vector<Rec>()));
+        cap.orc.init(l->dlt, empty.path);
+        static const int ORDER[4] = {0, 2, 1, 3};          // W1, T (malformed), W2, Z (empty frame at the end)
+        std::vector<Rec> recs;
+        for (int i = 0; i < nframes && i < 4; ++i) {
+            const Frame& f = cap.alpha[ORDER[i]];
+            cap.fr.push_back(ORDER[i]); cap.ts.push_back(TS[(i + k) % 3]);
+            recs.push_back(Rec{cap.ts.back(), (uint32_t)f.b.size(), f.len, f.b});
+        }
+        cap.file.reset(new MemFile()); cap.file->set(file_image(l->file_linktype, recs));
+        ++k;
+    }
+    c.op_filter = op_filter; c.op_raw = op_raw;
+    c.desc = "caps=" + caps + " nf=" + str(nframes) + " filter=" + str((int)op_filter) + " raw=" + str((int)op_raw);
+    return true;
+}
+static bool parse_hops(const std::string& s, std::vector<HOp>& h) {
+    if (s == "-" || s.empty()) return true;
+    std::istringstream in(s);
+    std::string t;
+    while (std::getline(in, t, ',')) {
+        if (t.size() < 2) return false;
+        h.push_back(HOp{t[0], t[1] - '0', t.size() > 2 ? t[2] - '0' : -1});
+    }
+    return true;
+}
+
+static void sniffer_history_bfs(const HCfg& c, uint64_t& index) {
+    struct Node { std::vector<HOp> h; MSlot m[2]; };
+    std::deque<Node> q;
+    std::set<std::string> seen;
+    Node init; init.m[0] = init.m[1] = MSlot{0, 0, 0, 0, 0, 0};
+    seen.insert(mkey(init.m)); q.push_back(init);
+    bool cut = false;
+    while (!q.empty() && !cut) {
+        Node cur = q.front(); q.pop_front();
+        for (const HOp& o : hops_enabled(c, cur.m)) {
+            const uint64_t my = index++;
+            if (skipped(my)) { R.flags["exhaustive"] = false; continue; }
+            if (deadline_reached()) { R.flags["exhaustive"] = false; R.info["cut_at"] = jstr("sniffer histories " + c.desc); cut = true; break; }
+            Node nx; nx.h = cur.h; nx.h.push_back(o);
+            g_case = "hist=sniffer " + c.desc + " ops=" + hops_str(nx.h);
+            set_case(my, "sniffer object history", g_case);
+            arm_watchdog(120);
+            sniffer_history(c, nx.h, nx.m);
+            disarm_watchdog();
+            R.count("history_transitions");
+            R.maxv("history_max_depth", nx.h.size());
+            if (seen.insert(mkey(nx.m)).second) {
+                R.count("history_states");
+                int live = (nx.m[0].st == 2) + (nx.m[1].st == 2);
+                if (live == 2 || nx.m[0].st == 1 || nx.m[1].st == 1) R.dist("distinct_nontrivial", fnv("H|" + c.desc + "|" + mkey(nx.m)));
+                q.push_back(nx);
+            }
+        }
+    }
+}
+
+// ---- PacketWriter slots.  Model: a slot refers to a file (or is empty / moved-from); a file is unopened, open or closed and holds
+// the records written through the slot that referred to it.  After every object is gone each file that was opened must be a complete
+// capture of its own link type with exactly its records, each file that never was must be untouched.
+struct WM { int sst[2], sfile[2]; int fst[3]; std::vector<int> rec[3]; };       // sst: 0 empty 1 moved 2 live; fst: 0 unopened 1 open 2 closed
+static const int WLINK[3] = {0, 1, 3};                                           // indices into LINKS: EN10MB, RAW, LINUX_SLL
+static std::string wkey(const WM& w) {
+    std::string s;
+    for (int i = 0; i < 2; ++i) s += w.sst[i] == 2 ? "f" + str(w.sfile[i]) : w.sst[i] ? "M" : "E";
+    for (int k = 0; k < 3; ++k) s += "|" + str(w.fst[k]) + ":" + str(w.rec[k].size());
+    return s;
+}
+static std::vector<HOp> wops_enabled(const WM& w, int maxrec) {
+    std::vector<HOp> v;
+    for (int s = 0; s < 2; ++s) {
+        const int t = 1 - s;
+        if (w.sst[s] == 0) { for (int k = 0; k < 3; ++k) if (w.fst[k] == 0) v.push_back(HOp{'o', s, k}); if (w.sst[t] == 2) v.push_back(HOp{'m', s, t}); }
+        else {
+            v.push_back(HOp{'c', s, -1});
+            for (int k = 0; k < 3; ++k) if (w.fst[k] == 0) v.push_back(HOp{'A', s, k});
+            if (w.sst[t] == 2) v.push_back(HOp{'a', s, t});
+        }
+        if (w.sst[s] == 2 && (int)w.rec[w.sfile[s]].size() < maxrec) v.push_back(HOp{'w', s, -1});
+    }
+    return v;
+}
+static Bytes wpayload(int k, int no) { Bytes b = pattern(20 + 3 * no, uint8_t(40 * k + no)); b[0] = uint8_t(k); b[1] = uint8_t(no); return b; }
+static void writer_history(const std::vector<HOp>& h, WM* w_out) {
+    MemFile files[3];
+    std::unique_ptr<PacketWriter> sl[2];
+    WM w; for (int i = 0; i < 2; ++i) { w.sst[i] = 0; w.sfile[i] = 0; } for (int k = 0; k < 3; ++k) w.fst[k] = 0;
+    int serial = 0;
+    std::string where;
+    auto release = [&](int s) { if (w.sst[s] == 2) w.fst[w.sfile[s]] = 2; };      // the writer state a slot held is gone: its file is complete
+    Mon::reset();
+    try {
+        for (size_t i = 0; i < h.size(); ++i) {
+            const HOp& o = h[i];
+            where = "op " + str(i) + " (" + hop_str(o) + ")";
+            switch (o.t) {
+                case 'o': sl[o.s].reset(make_writer(files[o.x].path, LINKS[WLINK[o.x]].dlt, (i + o.x) % 2 == 1)); w.sst[o.s] = 2; w.sfile[o.s] = o.x; w.fst[o.x] = 1; break;
+                case 'c': release(o.s); sl[o.s].reset(); w.sst[o.s] = 0; break;
+                case 'A': { release(o.s);
+                    std::unique_ptr<PacketWriter> t(make_writer(files[o.x].path, LINKS[WLINK[o.x]].dlt, (i + o.x) % 2 == 1));
+                    *sl[o.s] = std::move(*t); t.reset();
+                    w.sst[o.s] = 2; w.sfile[o.s] = o.x; w.fst[o.x] = 1; break; }
+                case 'a': release(o.s); *sl[o.s] = std::move(*sl[o.x]); w.sst[o.s] = 2; w.sfile[o.s] = w.sfile[o.x]; w.sst[o.x] = 1; break;
+                case 'm': sl[o.s].reset(new PacketWriter(std::move(*sl[o.x]))); w.sst[o.s] = 2; w.sfile[o.s] = w.sfile[o.x]; w.sst[o.x] = 1; break;
+                case 'w': {
+                    const int k = w.sfile[o.s], no = serial++;
+                    Bytes pl = wpayload(k, no);
+                    RawPDU raw(pl.data(), (uint32_t)pl.size());
+                    const Ts ts = TS[(no + k) % 3];
+                    Packet p(raw, Timestamp((uint64_t)ts.sec * 1000000u + ts.usec));
+                    sl[o.s]->write(p);
+                    w.rec[k].push_back(no);
+                    break; }
+            }
+        }
+        sl[0].reset(); sl[1].reset();
+    } catch (std::exception& e) { viol("history-writer:exception:" + exc_name(e), e.what(), where); }
+    if (mon_error()) viol(Mon::first, Mon::first_detail + " during a writer history", where);
+    for (int k = 0; k < 3; ++k) {
+        Bytes img = files[k].get();
+        std::string fw = std::string("file ") + str(k) + " (" + LINKS[WLINK[k]].name + ") after every writer object is gone";
+        if (w.fst[k] == 0) { if (!img.empty()) viol("history-writer:unopened-file-touched", str(img.size()) + " bytes in a file no writer was opened on", fw); continue; }
+        uint32_t lt = 0, snap = 0; std::vector<Rec> got;
+        std::string prob = parse_image(img, lt, snap, got);
+        if (!prob.empty()) { viol("history-writer:file-incomplete", prob + "; " + str(w.rec[k].size()) + " packets were written to it", fw); continue; }
+        if (lt != LINKS[WLINK[k]].file_linktype) { viol("history-writer:link-type", "file says " + str(lt) + ", opened as " + str(LINKS[WLINK[k]].file_linktype), fw); continue; }
+        if (got.size() != w.rec[k].size()) { viol("history-writer:record-count", str(w.rec[k].size()) + " packets written, file has " + str(got.size()), fw); continue; }
+        for (size_t j = 0; j < got.size(); ++j) {
+            const int no = w.rec[k][j];
+            const Ts ts = TS[(no + k) % 3];
+            if (got[j].data != wpayload(k, no)) { viol("history-writer:bytes", "record " + str(j) + " is not packet #" + str(no) + " written to this file", fw); break; }
+            if (got[j].ts.sec != ts.sec || got[j].ts.usec != ts.usec) { viol("history-writer:timestamp", "record " + str(j), fw); break; }
+        }
+    }
+    R.count("evaluations"); ++g_eval;
+    if (w_out) { for (int s = 0; s < 2; ++s) release(s); *w_out = w; }
+}
+// model state after a history WITHOUT the final release (the BFS continues from live objects)
+static void writer_model(const std::vector<HOp>& h, WM& w) {
+    for (int i = 0; i < 2; ++i) { w.sst[i] = 0; w.sfile[i] = 0; } for (int k = 0; k < 3; ++k) { w.fst[k] = 0; w.rec[k].clear(); }
+    int serial = 0;
+    auto release = [&](int s) { if (w.sst[s] == 2) w.fst[w.sfile[s]] = 2; };
+    for (const HOp& o : h) switch (o.t) {
+        case 'o': w.sst[o.s] = 2; w.sfile[o.s] = o.x; w.fst[o.x] = 1; break;
+        case 'c': release(o.s); w.sst[o.s] = 0; break;
+        case 'A': release(o.s); w.sst[o.s] = 2; w.sfile[o.s] = o.x; w.fst[o.x] = 1; break;
+        case 'a': release(o.s); w.sst[o.s] = 2; w.sfile[o.s] = w.sfile[o.x]; w.sst[o.x] = 1; break;
+        case 'm': w.sst[o.s] = 2; w.sfile[o.s] = w.sfile[o.x]; w.sst[o.x] = 1; break;
+        case 'w': w.rec[w.sfile[o.s]].push_back(serial++); break;
+    }
+}
+static void writer_history_bfs(int maxrec, uint64_t& index) {
+    struct Node { std::vector<HOp> h; };
+    std::deque<Node> q;
+    std::set<std::string> seen;
+    WM w0; writer_model(std::vector<HOp>(), w0);
+    seen.insert(wkey(w0)); q.push_back(Node());
+    bool cut = false;
+    while (!q.empty() && !cut) {
+        Node cur = q.front(); q.pop_front();
+        WM wc; writer_model(cur.h, wc);
+        for (const HOp& o : wops_enabled(wc, maxrec)) {
+            const uint64_t my = index++;
+            if (skipped(my)) { R.flags["exhaustive"] = false; continue; }
+            if (deadline_reached()) { R.flags["exhaustive"] = false; R.info["cut_at"] = jstr("writer histories"); cut = true; break; }
+            Node nx; nx.h = cur.h; nx.h.push_back(o);
+            g_case = "hist=writer maxrec=" + str(maxrec) + " ops=" + hops_str(nx.h);
+            set_case(my, "writer object history", g_case);
+            arm_watchdog(120);
+            writer_history(nx.h, 0);
+            disarm_watchdog();
+            R.count("writer_history_transitions");
+            R.maxv("writer_history_max_depth", nx.h.size());
+            WM wn; writer_model(nx.h, wn);
+            if (seen.insert(wkey(wn)).second) {
+                R.count("writer_history_states");
+                if (wn.fst[0] + wn.fst[1] + wn.fst[2] >= 3) R.dist("distinct_nontrivial", fnv("W|" + wkey(wn)));
+                q.push_back(nx);
+            }
+        }
+    }
+}
+
+// history jobs: quick 4 sniffer configurations (3 frames per capture, filter op OR raw op) + 1 writer job; thorough 8 (4 frames, both ops) + 1
+struct HJob { const char* caps; int nf; bool f, r; };
+static const HJob HJOBS_QUICK[] = {
+    {"EN10MB,RAW,LINUX_SLL", 3, true, false}, {"EN10MB,RAW,LINUX_SLL", 3, false, true},
+    {"IEEE802_11_RADIO,IEEE802_11,PPI", 3, true, false}, {"RAW,IEEE802_11_RADIO,NULL", 3, false, true},
+};
+static const HJob HJOBS_THOROUGH[] = {
+    {"EN10MB,RAW,LINUX_SLL", 4, true, true}, {"IEEE802_11_RADIO,IEEE802_11,PPI", 4, true, true}, {"RAW,IEEE802_11_RADIO,NULL", 4, true, true},
+    {"NULL,EN10MB,IEEE802_11", 4, true, true}, {"PPI,LINUX_SLL,RAW", 4, true, true}, {"LINUX_SLL,NULL,IEEE802_11_RADIO", 4, true, true},
+    {"IEEE802_11,PPI,EN10MB", 4, true, true}, {"EN10MB,IEEE802_11_RADIO,RAW", 4, true, true},
+};
+static int n_hist_jobs() { return (A.thorough() ? (int)(sizeof HJOBS_THOROUGH / sizeof HJOBS_THOROUGH[0]) : (int)(sizeof HJOBS_QUICK / sizeof HJOBS_QUICK[0])) + 1; }
+static void run_history_job(int j) {
+    uint64_t index = 0;
+    const int ns = n_hist_jobs() - 1;
+    if (j == ns) {
+        writer_history_bfs(A.thorough() ? 3 : 2, index);
+        R.sample(jstr("writer history case, e.g. 'hist=writer maxrec=2 ops=o00,w0,A01,w0,c0' (o open, w write, A move-assign from a fresh writer, a move-assign slot<-slot, m move-construct, c destroy)"));
+        return;
+    }
+    const HJob& hj = (A.thorough() ? HJOBS_THOROUGH : HJOBS_QUICK)[j];
+    HCfg c;
+    make_hcfg(c, hj.caps, hj.nf, hj.f, hj.r);
+    sniffer_history_bfs(c, index);
+    if (j == 0)
+        R.sample(jstr("sniffer history case, e.g. 'hist=sniffer caps=EN10MB,RAW,LINUX_SLL nf=3 filter=1 raw=0 ops=o00,n0,A01,n0' (o open, n next_packet, d sniff_loop to end, "
+                      "f set_filter, r extract_raw, A move-assign from a fresh sniffer on capture k, a move-assign slot<-slot, m move-construct, c destroy)"));
+}
+
 // ------------------------------------------------------------------------------------------------ enumeration
 static int max_len() { return A.thorough() ? 4 : 3; }
 static int shards() { return A.thorough() ? 16 : 4; }
@@ -998,6 +1335,8 @@ static bool decode_seq(const std::vector<Frame>& alpha, const std::string& s, st
 
 static void run_job(int job) {
     const int sh = shards();
+    if (job < n_hist_jobs()) { run_history_job(job); return; }      // the history jobs are the longest single jobs: scheduled first
+    job -= n_hist_jobs();
     const Link* l = &LINKS[job / sh];
     const int shard = job % sh;
     Ctx cx;
@@ -1036,8 +1375,24 @@ static void run_job(int job) {
         R.sample(jstr("case = one frame sequence + timestamp rotation, e.g. 'lt=RAW seq=W1,Z,Gver rot=1'; rot=0 runs every reader x method x filter"));
 }
 
+static int replay_history(std::map<std::string, std::string>& kv, const std::string& kase) {
+    std::vector<HOp> h;
+    if (!parse_hops(kv["ops"], h)) { printf("bad ops in '%s'\n", kase.c_str()); return 2; }
+    g_case = kase;
+    if (kv["hist"] == "writer") writer_history(h, 0);
+    else {
+        HCfg c;
+        if (!make_hcfg(c, kv["caps"], atoi(kv["nf"].c_str()), kv["filter"] == "1", kv["raw"] == "1")) { printf("bad caps in '%s'\n", kase.c_str()); return 2; }
+        sniffer_history(c, h, 0);
+    }
+    for (auto& v : R.violations) printf("violation reproduced: %s (x%llu)\n   %s\n", v.first.c_str(), (unsigned long long)v.second.count, v.second.detail.c_str());
+    if (R.violations.empty()) { printf("history replayed, no violation\n"); return 0; }
+    return 1;
+}
+
 static int replay(const std::string& kase) {
     auto kv = kvparse(kase);
+    if (kv.count("hist")) return replay_history(kv, kase);
     const Link* l = 0;
     for (int i = 0; i < NLINKS; ++i) if (kv["lt"] == LINKS[i].name) l = &LINKS[i];
     if (!l) { printf("unknown link type in case '%s'\n", kase.c_str()); return 2; }
@@ -1063,5 +1418,6 @@ static int replay(const std::string& kase) {
 }
 
 int main(int argc, char** argv) {
-    return run_main(argc, argv, NLINKS * 4, NLINKS * 16, run_job, replay);
+    const int hq = (int)(sizeof HJOBS_QUICK / sizeof HJOBS_QUICK[0]) + 1, ht = (int)(sizeof HJOBS_THOROUGH / sizeof HJOBS_THOROUGH[0]) + 1;
+    return run_main(argc, argv, NLINKS * 4 + hq, NLINKS * 16 + ht, run_job, replay);
 }
